@@ -9,13 +9,13 @@ namespace Xp.C13
 def Pc.cid? : Pc → Option Nat
   | .relCE cid _ | .relC cid _ | .spC _ cid | .spLoop _ cid | .spGI _ cid _ _ | .spRH _ cid _ _ _
   | .swAI cid _ | .swCR cid _ _ | .swCRrel cid _ _ _ | .swCW cid _ _ | .swAI2 cid _
-  | .swGI cid _ _ _ | .swAH cid _ _ _ _
+  | .swGI cid _ _ _ _ | .swAH cid _ _ _ _ _
   | .xwCR cid _ | .xwCRrel cid _ _ | .xwCW cid _ | .xwGI cid _ _ _ _ | .xwRH cid _ _ _ _ _
   | .gwCR cid | .gwCRrel cid _ | .gcCR cid _ _ | .gcCRrel cid _ _ _ => some cid
   | .swLU o _ | .xwLU o _ | .gwLU o | .gcLU o _ _ => o
   | _ => none
 
-theorem swPc_cid (cid : Nat) (a : List Nat) (o) : (swPc cid a o).cid? = some cid := by
+theorem swPc_cid (cid : Nat) (a : List Nat) (st : List Wid) (o) : (swPc cid a st o).cid? = some cid := by
   cases o with
   | none => rfl
   | some p => obtain ⟨w, r⟩ := p; rfl
@@ -36,9 +36,9 @@ def TFacts (s : Sys) (t : Thread) : Prop :=
       aget n s.ctrls = some cid ∧ aget wid (srcsOf s cid) = some reg
   | .xwGI cid wid reg _ _ | .xwRH cid wid reg _ _ _ => aget wid (srcsOf s cid) = some reg
   | .swAI2 cid _ => stoppedOf s cid = false
-  | .swGI cid a wid _ | .swAH cid a wid _ _ =>
-      stoppedOf s cid = false ∧ (∀ r ∈ s.regs, r.cid = cid → r.wid.gvk ∈ a) ∧
-      ¬((aget wid (srcsOf s cid)).isSome = true ∧ wid.gvk ∈ a)
+  | .swGI cid a st wid _ | .swAH cid a st wid _ _ =>
+      stoppedOf s cid = false ∧ (∀ r ∈ s.regs, r.cid = cid → r.wid.gvk ∈ a ∨ r.wid ∈ st) ∧
+      ¬((aget wid (srcsOf s cid)).isSome = true ∧ (wid.gvk ∈ a ∨ wid ∈ st))
   | _ => True
 
 /-! ### lock discipline of writes -/
@@ -108,7 +108,7 @@ theorem act_frame {cfg : Cfg} {s : Sys} {i : Nat} {t : Thread} {ch : Choice} {pc
       · exact absurd rfl h
       · exact absurd hr hnr
   case addReg cid wid h' =>
-    obtain ⟨a, rest, hpc, _, _⟩ := hf
+    obtain ⟨a, st, rest, hpc, _, _⟩ := hf
     rw [hpc]
     simp only [Act.apply, srcsOf_eq, stoppedOf_eq, srcsOfObjs_modCtl, stoppedOfObjs_modCtl]
     refine ⟨fun h => absurd rfl h, fun k h => ?_⟩
@@ -160,11 +160,11 @@ theorem TFacts_frame {s s' : Sys} {t : Thread}
   case swAI2 cid ws =>
     obtain ⟨_, e2, _⟩ := hc cid rfl
     rw [e2]; exact h
-  case swGI cid a wid rest =>
+  case swGI cid a st wid rest =>
     obtain ⟨e1, e2, e3⟩ := hc cid rfl
     rw [e1, e2]
     exact ⟨h.1, fun r hr hcid => h.2.1 r (e3 r hr hcid) hcid, h.2.2⟩
-  case swAH cid a wid rest hh =>
+  case swAH cid a st wid rest hh =>
     obtain ⟨e1, e2, e3⟩ := hc cid rfl
     rw [e1, e2]
     exact ⟨h.1, fun r hr hcid => h.2.1 r (e3 r hr hcid) hcid, h.2.2⟩
